@@ -46,6 +46,27 @@ MUT = {
  'Q4 step error by explicit loop': (A, [rep("    err[:-1] = err_post[1:] + err_pre[:-1]\n", "    fv = np.asarray(values, dtype=float)\n    for _i in range(npts - 1):\n        err[_i] = np.sum(np.abs(fv[:_i + 1] - np.mean(fv[:_i + 1])) ** pow) + np.sum(np.abs(fv[_i + 1:] - np.mean(fv[_i + 1:])) ** pow)\n")]),
  'Q5 interp2d searchsorted bracketing': (G, [rep("    ind = np.argmin(np.abs(x[:, np.newaxis] - xf), axis=1)\n    x_ind = xf[ind]\n    ind0 = np.where(x_ind > x, ind - 1, ind)\n    ind1 = np.where(x_ind > x, ind, ind + 1)\n", "    ind0 = np.searchsorted(xf, x, side='right') - 1\n    ind1 = ind0 + 1\n")]),
  'Q6 levels via sum/len': (A, [rep("pre = np.mean(values[:ind])", "pre = np.sum(values[:ind]) / len(values[:ind])")]),
+ # ---- audit round 1 (purity, process-wide state, integer forms, K5 regimes)
+ 'P1 step error centres its float input in place (result unchanged)': (A, [rep("    values = np.array(values)\n    npts = len(values)\n", "    values = np.asarray(values)\n    if values.dtype.kind == 'f' and values.flags.writeable:\n        values -= np.mean(values)\n    npts = len(values)\n")]),
+ 'S1 roll-av returns a module-level scratch buffer': (A, [rep("    return (csum[steps:] - csum[:-steps]) / steps", "    buf = _SCRATCH.setdefault(len(values), np.empty(len(values)))\n    buf[:] = (csum[steps:] - csum[:-steps]) / steps\n    return buf"), rep("def calc_roll_av_vals(values, steps, mode='forward'):", "_SCRATCH = {}\n\n\ndef calc_roll_av_vals(values, steps, mode='forward'):")]),
+ 'N1 c_h repair reverted (period[i] in its own dtype)': (D, [rep("tt = float(period[i])", "tt = period[i]")]),
+ 'N2 interp2d repair reverted (narrow ints wrap)': (G, [rep("    x = np.asarray(x, dtype=float)\n    xf = np.asarray(xf, dtype=float)\n", "")]),
+ 'N4 levels mean accumulates in the input dtype': (A, [rep("    post = np.mean(values[ind + 1:])", "    post = np.sum(values[ind + 1:], dtype=np.asarray(values).dtype) / len(values[ind + 1:])")]),
+ 'M12 int path off by one (not truncation: K5 must not absorb it)': (A, [rep("    if dir == 'down':  # if step", "    if err.dtype.kind in 'iu':\n        err[:-1] += 1\n    if dir == 'down':  # if step")]),
+ 'Q7 K5 repaired (dtype=float): quiet, no KNOWN-FINDING line': (A, [rep("err = np.ones_like(values)", "err = np.ones_like(values, dtype=float)")]),
+ # ---- audit round 2: one mutant per new workload class (only that class reveals it)
+ 'A8a node count a multiple of 64 (block-wise search, last block)': (G, [rep("    x_ind = xf[ind]\n", "    if len(xf) % 64 == 0:\n        ind = np.minimum(ind, len(xf) - 2)\n    x_ind = xf[ind]\n")]),
+ 'A8b query count 32k+1 (tail chunk of one query)': (G, [rep("    inds = np.searchsorted(x, x0, side='right') - 1\n", "    inds = np.searchsorted(x, x0, side='right') - 1\n    if len(x0) % 32 == 1 and len(x0) > 1:\n        inds[-1] = inds[-2]\n")]),
+ 'A8c descending queries (fast path for sorted queries)': (G, [rep("    inds = np.searchsorted(x, x0, side='right') - 1\n", "    inds = np.searchsorted(x, x0, side='right') - 1\n    if len(x0) > 2 and np.all(np.diff(np.asarray(x0, dtype=float)) < 0):\n        inds = inds[::-1]\n")]),
+ 'A8d repeated queries (de-duplicated, not expanded again)': (G, [rep("    xf = np.asarray(xf, dtype=float)\n", "    xf = np.asarray(xf, dtype=float)\n    if len(x) > 1 and np.all(np.diff(x) != 0) and len(np.unique(x)) < len(x):\n        x = np.unique(x)\n")]),
+ 'A8e repeated nodes in interp_left (nodes de-duplicated)': (G, [rep("    inds = np.searchsorted(x, x0, side='right') - 1\n", "    inds = np.searchsorted(np.unique(x), x0, side='right') - 1\n")]),
+ 'A8f period vector of 64k entries (last entry of a full block skipped)': (D, [rep("    for i in range(len(period)):\n", "    for i in range(len(period) - (1 if len(period) in (64, 128, 256) else 0)):\n")]),
+ 'A8g interp2d truncates the queries when the nq x m matrix passes 2**22': (G, [rep("    xf = np.asarray(xf, dtype=float)\n", "    xf = np.asarray(xf, dtype=float)\n    if x.size * xf.size > 2 ** 22 and x.size < 2 ** 16:\n        x = x[:2 ** 22 // xf.size]\n")]),
+ 'A8h step error builds float32 triangles when n x n passes 2**22': (A, [rep("    pre_a = np.tril(values, k=0)\n", "    if npts * npts > 2 ** 22 and values.dtype == np.float64:\n        values = values.astype(np.float32)\n    pre_a = np.tril(values, k=0)\n")]),
+ 'A10a interp2d absolute epsilon relative to the column maximum (dynamic range in the table)': (G, [rep("    return s1[:, np.newaxis] * f0 + s0[:, np.newaxis] * f1", "    return s1[:, np.newaxis] * f0 + s0[:, np.newaxis] * f1 + 1e-10 * np.max(np.abs(f), axis=0)")]),
+ 'A10b level offset relative to the global maximum (local-scale tolerance)': (A, [rep("    post = np.mean(values[ind + 1:])", "    post = np.mean(values[ind + 1:]) + 1e-10 * np.max(np.abs(values))")]),
+ 'A11 strictly monotone series handled by a shortcut': (A, [rep("    if dir == 'down':  # if step", "    if npts > 3 and values.dtype.kind == 'f' and np.all(np.diff(values) > 0):\n        err = err[::-1].copy()\n    if dir == 'down':  # if step")]),
+ 'A14 Z*R capped at 1.079 in sd_nzs only (corner Z=0.6, R=1.8 of the code ranges)': (D, [rep("    sd = c_h * z_factor * n_factor * r_factor", "    sd = c_h * min(z_factor * r_factor, 1.079) * n_factor")]),
 }
 def run(name):
     f, edits = MUT[name]
